@@ -700,6 +700,16 @@ struct TypeRunner {
     WResult w = encode_all(v, {}, false);
     if (!w.ok) return;
     std::vector<long long> handles = w.pushed;
+    // the bytes themselves, read into a destination that already holds another value: what is
+    // decoded is what the bytes denote, nothing of the previous contents
+    {
+      T dest{}; fill(rng, dest, 0);
+      const std::string prior_text = dump_str(dest, false);
+      RResult r = read_kind<P>("buf", w.bytes, dest, handles);
+      c.line('M', "dec " + tid + " buf " + hex(w.bytes) + " " + prior_text + " " + join(handles));
+      c.line('I', r.text);
+      c.stat("dec_ops");
+    }
     for (auto& m : mutations(w.bytes, c.thorough ? 256 : 5)) {
       const char* rks[] = {"buf", "ped"};
       dec_lines(rks[rng.below(2)], m, handles);
